@@ -434,6 +434,10 @@ class Machine:
             return v
 
     def unpack(self, v: V, n: int) -> list[V]:
+        if isinstance(v, VOpt):
+            if not self.spec and not self.ctx.branch(z3.Not(v.sort.is_none(v.term))):
+                raise RaiseSig(VExc("TypeError"))
+            v = v.sort.elem.wrap(v.sort.val(v.term))
         if isinstance(v, VTuple):
             if len(v.items) != n:
                 raise EngineError("tuple unpack arity")
@@ -1468,7 +1472,7 @@ class Machine:
                 key = self.world.mro_lookup(obj.sort.pycls, name)
                 if key is not None:
                     c = self.world.registry.contracts[key]
-                    if "property" in c.note.split():
+                    if "property" in c.note.replace(";", " ").split():
                         return self.call_contract(key, [obj], {})
                     return VBound(obj, name)
         if isinstance(obj, VHeapRef):
@@ -1477,7 +1481,7 @@ class Machine:
             cls = getattr(self.world, "usort_class", {}).get(obj.sort.name)
             if cls and self.world.mro_lookup(cls, name):
                 key = self.world.mro_lookup(cls, name)
-                if "property" in self.world.registry.contracts[key].note.split():
+                if "property" in self.world.registry.contracts[key].note.replace(";", " ").split():
                     return self.call_contract(key, [obj], {})
                 return VBound(obj, name)
         if isinstance(obj, VModule):
